@@ -904,8 +904,9 @@ def int_table_tree(fn: dict, int_param: int, fns: Optional[Dict[str, dict]] = No
             raise Unrecognised("%s(%d) does not return: %s" % (fn["name"], k, leaf.diverge))
         rows.append((k, leaf.value))
     others = []
+    key_set = set(keys)
     for n in SE.int_reps(ats, extra, lo, hi):
-        if n in keys:
+        if n in key_set:
             continue
         leaf = SE.run(tree, {"int": n})
         if leaf.diverge:
